@@ -79,3 +79,7 @@ package time
 //@   ensures unix_is_floor: name == "unix" ==> result1 == nil && typeis(result0, starlark.Int) && val(as(result0, starlark.Int)) == fdiv(inst(t), 1000000000)
 //@   ensures nanosecond_is_remainder: name == "nanosecond" ==> result1 == nil && typeis(result0, starlark.Int) && val(as(result0, starlark.Int)) == inst(t) - 1000000000 * fdiv(inst(t), 1000000000)
 //@   ensures unix_nano_is_instant: name == "unix_nano" && MIN64 <= inst(t) && inst(t) <= MAX64 ==> result1 == nil && typeis(result0, starlark.Int) && val(as(result0, starlark.Int)) == inst(t)
+
+// ---- determinism and thread-compatibility (C03, C05): no function of the package writes a
+// package-level variable at run time (what one execution left there another would read)
+//@ globals_readonly [C03,C05] none
